@@ -114,9 +114,10 @@ def cutApplies (P : Particles α) (s : Sec α) : Bool :=
 
 /-- the secondary loop of `InteractionApplierBaseImpl::operator()`: returns the updated
     deposition accumulator and the surviving secondaries (cleared ones are `none`).
-    NOTE: the C++ calls `cutoff.apply` also on already-cleared secondaries; with all three of
-    gamma/electron/positron present in the problem that returns false, which is what is modelled
-    (a problem lacking one of them makes the C++ index with an invalid id — reported finding). -/
+    A cleared secondary is skipped: `CutoffView::apply` returns false for an invalid particle id
+    (explicit guard since the repair of finding C01/cutoff-apply-cleared-secondary; before it the
+    C++ compared the invalid id with `ids.positron` and, in a problem lacking one of gamma /
+    electron / positron, indexed the cutoff table out of bounds). -/
 def cutLoop (P : Particles α) : α → List (Option (Sec α)) → α × List (Option (Sec α))
   | dep, [] => (dep, [])
   | dep, none :: rest =>
